@@ -6,9 +6,12 @@
    seed, every collision pattern); EVERY [sort] that returns some permutation of its input ordered
    by slot ([sort_ok]: covers the unstable sort.Sort); every previous state [st] of the instance
    (so each statement holds after every reload, growing or shrinking); every probe string.
-   Bounds are the code's own: a key/value longer than math.MaxUint32 bytes is refused ("key too
-   large" / "string too long") and calcHashtableSlots panics from 3*2^29 keys on ("too many
-   items") -- [loadable]; 64-bit int. *)
+   Bounds are the code's own ([loadable]): a key/value longer than math.MaxUint32 bytes is
+   refused ("key too large" / "string too long"); the key count must fit the int32 indices and
+   floor(count / loadfactor) must have at most 31 bits, else calcHashtableSlots panics "too many
+   items" ([count_ok]; with the present load factor 3/4: count < 3*2^29; C07_count_ok_1e5 covers
+   the property's 0..10^5).  The proofs are parametric in the load factor and in the primes
+   (only: at least 32 entries, each in [1, 2^31)).  64-bit int. *)
 From GV Require Import Lib.Bytes Lib.Res Gen.Consts Model.StrMap Model.StrStore Spec.StrMap
   Proofs.StrMapP Proofs.StrStoreP.
 From Coq Require Import Permutation Sorted.
@@ -85,8 +88,13 @@ Proof. exact history_spec. Qed.
 Theorem C07_slots_pos : forall n s, slots n = Ok s -> (1 <= s < 2147483648)%Z.
 Proof. exact slots_range. Qed.
 
-Theorem C07_slots_defined : forall n, n < max_items -> exists s, slots n = Ok s.
+Theorem C07_slots_defined : forall n, count_ok n -> exists s, slots n = Ok s.
 Proof. exact slots_ok. Qed.
+
+(* the key counts the property speaks about (0 .. 10^5) are acceptable, and so is every count
+   below an acceptable one *)
+Theorem C07_count_ok_1e5 : forall n, n <= 100000 -> count_ok n.
+Proof. exact count_ok_1e5. Qed.
 
 (* ---------------- StrStore and Str2Str ---------------- *)
 
@@ -140,7 +148,7 @@ Proof.
   cbv zeta. split; [reflexivity|]. split.
   - repeat constructor; cbn [In]; intros H; repeat (destruct H as [H|H]; try discriminate); exact H.
   - split; [|repeat split; vm_compute; reflexivity].
-    split; [repeat constructor; unfold small; vm_compute; discriminate|vm_compute; reflexivity].
+    split; [repeat constructor; unfold small; vm_compute; discriminate|split; vm_compute; reflexivity].
 Qed.
 
 Example C07_nonvacuous_history :
@@ -157,10 +165,10 @@ Proof.
     cbn [fst snd length]; intros Hq; try discriminate Hq.
   - split.
     + repeat constructor; cbn [In]; intros H; repeat (destruct H as [H|H]; try discriminate); exact H.
-    + split; [repeat constructor; unfold small; vm_compute; discriminate|vm_compute; reflexivity].
+    + split; [repeat constructor; unfold small; vm_compute; discriminate|split; vm_compute; reflexivity].
   - split.
     + repeat constructor; cbn [In]; tauto.
-    + split; [repeat constructor; unfold small; vm_compute; discriminate|vm_compute; reflexivity].
+    + split; [repeat constructor; unfold small; vm_compute; discriminate|split; vm_compute; reflexivity].
 Qed.
 
 Example C07_nonvacuous_str2str :
@@ -174,7 +182,7 @@ Example C07_nonvacuous_str2str :
 Proof.
   cbv zeta. split; [reflexivity|]. split.
   - repeat constructor; cbn [In]; intros H; repeat (destruct H as [H|H]; try discriminate); exact H.
-  - split; [split; [repeat constructor; unfold small; vm_compute; discriminate|vm_compute; reflexivity]|].
+  - split; [split; [repeat constructor; unfold small; vm_compute; discriminate|split; vm_compute; reflexivity]|].
     split; [repeat constructor; unfold small; vm_compute; discriminate|].
     repeat split; vm_compute; reflexivity.
 Qed.
